@@ -113,9 +113,17 @@ def exhaustive_flows(max_ops: int, two_routines: bool = True) -> list[dict]:
 def sanitise_dmode(routines: list[list[dict]]) -> None:
     """the decompiler input domain: the dungeon-mode value of flag_SetDungeonMode is a number 0..3"""
     for r in routines:
+        under = False
         for o in r:
             if o["op"] == "flag_SetDungeonMode" and len(o["ps"]) == 2 and o["ps"][1] not in ("i:0", "i:1", "i:2", "i:3"):
                 o["ps"] = [o["ps"][0], "i:%d" % (len(o["ps"][1]) % 4)]
+            if o["op"] == "SwitchDungeonMode":
+                under = True
+            elif o["op"] == "Case" and under:
+                if o["ps"] and o["ps"][0] not in ("i:0", "i:1", "i:2", "i:3"):
+                    o["ps"] = ["i:%d" % (sum(map(ord, o["ps"][0])) % 4)]
+            elif not o["op"].startswith("Case"):
+                under = False
 
 
 def renumber(routines: list[list[dict]], rng: random.Random | None = None, gaps: bool = False) -> list[list[dict]]:
